@@ -294,3 +294,5 @@ def run(ctx, eng):
     check_role_of_creation(eng, ctx)
     ctx.assume('header contents of events are decided under C15; ordering '
                'across different streams is not decided')
+    from . import c21
+    c21.check_block_continuity(ctx, eng)
